@@ -242,11 +242,11 @@ FAMILIES = ["generic", "generic", "runs", "trailing", "noq2", "noq2idle", "idle"
 
 
 # ------------------------------------------------------------------ the real code
-def run_optimizer(level, n, items):
+def run_optimizer(level, n, items, nq=None):
     from quantum_gates._utility.circ_optimizer import Optimizer
     arg = copy.deepcopy(items)        # the optimizer rewrites [q,-1] in place: that is C11's business, not C02's
     try:
-        out = Optimizer(level_opt=level, circ_list=arg, qubit_list=list(range(n))).optimize()
+        out = Optimizer(level_opt=level, circ_list=arg, qubit_list=list(range(n if nq is None else nq))).optimize()
     except Exception as e:                                     # noqa
         return {"err": type(e).__name__}, None
     return None, out
@@ -445,10 +445,17 @@ def main(ctx):
             pat = [q for q in pat if len(q) == 1 or q[0] != q[1]]
         be_cases.append((fam, n, materialise(rng, pat, 0.1 if len(pat) > 12 else 0.4), psi_for(n)))
 
-    # malformed stream (outside the property; checks the error branches of the correspondence).
-    # Lists of at most two items, so that no fusion level runs and D1-D3 cannot interfere.
+    # malformed stream (outside the property; checks the error branches of the correspondence).  Either the level is
+    # refused by the constructor or the list has at most two items, so that no fusion level runs and D1-D3 cannot interfere.
     A2, A4 = rand_monomial(rng, 2), rand_monomial(rng, 4)
     mal_opt = [(lvl, 2, [[A2, [0]], [A2, [1]], [A4, [0, 1]]]) for lvl in (-1, 5, 7, -3)]
+    # outside the hypothesis `n <= len(qubit_list)` of optimize_sem: a qubit_list shorter than the register makes
+    # level 4 drop trailing gates on the uncovered qubits (model and code must agree on that, too); a longer one is fine
+    B2 = rand_dense(rng, 2)
+    short_layout = [(4, 4, 2, [[A4, [0, 1]], [A2, [2]], [B2, [3]], [B2, [0]]]),
+                    (4, 4, 3, [[A4, [1, 0]], [A2, [3]], [B2, [2]], [A2, [3]], [B2, [1]]]),
+                    (3, 4, 7, [[A4, [2, 0]], [A2, [3]], [B2, [1]], [A2, [3]], [B2, [1]]]),
+                    (4, 3, 2, [[A4, [0, 2]], [A2, [1]], [B2, [2]], [A2, [1]]])]
     mal_be = [(2, [], [1, 0, 0, 0]), (2, [[A2, [5]]], [1, 0, 0, 0]), (2, [[A4, [1, 1]]], [1, 0, 0, 0]),
               (2, [[A2, [0]]], [1, 0, 0]), (1, [[A2, [0]], [A2, [0, -1]]], [1, 2, 3]), (3, [[A4, [0, 3]]], [1] * 8),
               (2, [[A4, [0, 1]]], [1, 0])]
@@ -516,12 +523,21 @@ def main(ctx):
         hist_n[f"backend n={n}"] = hist_n.get(f"backend n={n}", 0) + 1
     t_be = time.time() - t0
 
-    mal_impl = []
     for lvl, n, items in mal_opt:
         err, out = run_optimizer(lvl, n, items)
         reqs.append({"op": "optimize", "levels": [lvl], "n": n, "items": jitems(items)})
         expect.append(("mal-opt", None, [(err, out)]))
         ctx.count()
+    dropped = 0
+    for lvl, n, nq, items in short_layout:
+        err, out = run_optimizer(lvl, n, items, nq=nq)
+        reqs.append({"op": "optimize", "levels": [lvl], "n": n, "nq": nq, "items": jitems(items)})
+        expect.append(("mal-opt", None, [(err, out)]))
+        ctx.count()
+        if err is None and nq < n:
+            X = np.eye(2 ** n, dtype=complex)
+            dropped += 0 if same(ref_fold(n, out, X), ref_fold(n, items, X))[0] else 1
+    cov["lists_changed_when_qubit_list_is_shorter_than_the_register"] = f"{dropped} of {sum(1 for c in short_layout if c[2] < c[1])}"
     for n, items, psi0 in mal_be:
         err, out = run_backend(n, items, psi0)
         reqs.append({"op": "binary_statevector", "n": n, "items": jitems(items),
@@ -587,7 +603,7 @@ def main(ctx):
     cov["optimizer_lists"] = len(opt_cases)
     cov["optimizer_calls"] = len(opt_cases) * len(LEVELS)
     cov["backend_cases"] = len(be_cases)
-    cov["malformed_cases"] = len(mal_opt) + len(mal_be)
+    cov["malformed_cases"] = len(mal_opt) + len(mal_be) + len(short_layout)
     cov["traces_validated_against_impl"] = len(reqs)
     cov["correspondence_mismatches"] = len(mismatches)
     cov["oracle_failures_on_real_code"] = len(failures)
@@ -604,13 +620,16 @@ def main(ctx):
         "differential correspondence with Optimizer.optimize (levels 0..4) and BinaryBackend.statevector on every case of this run",
         "numpy's @, kron, identity and scipy's coo_matrix/csr dot (duplicates summed) as modelled by MatOps / the triplet sum; "
         "Python's format(x,'0Wb'), int(s,2), list.remove as modelled by fmtBin / intOfBits / removeE",
-        "the driver's list-of-rows matrix arithmetic over Gaussian integers (Mat.mul, Mat.kron2): validated numerically by the "
-        "same correspondence, not proved equal to Mathlib's Matrix operations",
+        "the theorems optimize_sem_gint / binary_spec_gint are about exactly the functions the driver executes (list-of-rows "
+        "matrices, Gaussian integers as Int x Int); what remains trusted on the Lean side of the tie is the JSON decoding / "
+        "printing in QG/Driver/C02.lean and the compilation of the model to native code",
         "for n > %d the operator oracle compares the action on 4 integer columns instead of the full 2^n x 2^n operator" % DENSE_NMAX,
     ]
     ctx.assumptions += [
         "well-formed list: one-qubit items [q] or [q,-1] with a 2x2 matrix, two-qubit items [q1,q2] with a 4x4 matrix, "
-        "q1 != q2, all qubits < n; qubit_list = list(range(n)) (only its length is used by the optimizer)",
+        "q1 != q2, all qubits < n; qubit_list = list(range(n)) (only its length is used by the optimizer; optimize_sem needs "
+        "n <= len(qubit_list): with a shorter qubit_list level 4 silently drops trailing gates on the uncovered qubits, which the "
+        "malformed stream exercises and the evidence counts)",
         "rounding of @ / kron on non-integer data is outside the theorems (they are over a commutative semiring); the "
         "correspondence uses integer data on which numpy is exact (cases above 2^52 are compared to 1e-9 and counted)",
         "in-place rewriting of [q,-1] in the caller's list is C11's subject; the check passes deep copies",
@@ -625,6 +644,7 @@ def main(ctx):
         key = (f["op"], f["kind"], shape)
         classes.setdefault(key, []).append(f)
     cov["failure_classes"] = {" / ".join(k): len(v) for k, v in classes.items()}
+    printed = {}
     for (op, kind, shape), fs in sorted(classes.items(), key=lambda kv: kv[0]):
         # one record per list (at its lowest failing level), smallest inputs first
         best = {}
@@ -632,17 +652,27 @@ def main(ctx):
             k = id(f["items"])
             if k not in best or f["level"] < best[k]["level"]:
                 best[k] = f
-        chosen = sorted(best.values(), key=lambda f: (len(f["items"]), f["n"], f["level"]))[:3]
-        for f in chosen:
-            f = shrink(f)
-            sig = {"op": op, "defect-shape": shape, "error": kind}
+        ordered = sorted(best.values(), key=lambda f: (len(f["items"]), f["n"], f["level"]))
+        chosen = ordered[:3]
+        # a long list contains every window by chance: minimise a few long members of the class as well and
+        # classify the minimised input, so that a different cause is not hidden under this class's label
+        probes = [f for f in ordered[3:] if len(f["items"]) > 6][:3]
+        for f0 in chosen + probes:
+            f = shrink(f0)
+            shape2 = shape_of(f["n"], f["items"], kind, f["level"])
+            if any(f0 is p for p in probes) and shape2 == shape:
+                continue
+            if printed.get((op, kind, shape2), 0) >= 3:
+                continue
+            printed[(op, kind, shape2)] = printed.get((op, kind, shape2), 0) + 1
+            sig = {"op": op, "defect-shape": shape2, "error": kind}
             replay_obj = {"op": op, "level": f["level"], "n": f["n"], "items": jitems(f["items"]), "failure": f["text"],
                           "lists_in_this_class": len(best)}
             if op == "statevector":
                 replay_obj["psi"] = [[int(complex(z).real), int(complex(z).imag)] for z in f["psi"]]
             call = (f"Optimizer({f['level']}, {describe(f['items'])}, range({f['n']})).optimize()" if op == "optimize"
                     else f"BinaryBackend({f['n']}).statevector({describe(f['items'])}, psi0)")
-            ctx.violation(sig, replay_obj, f"{call}: {f['text']} [{shape}]")
+            ctx.violation(sig, replay_obj, f"{call}: {f['text']} [{shape2}]")
     if not failures:
         if mismatches:
             ctx.violation({"kind": "correspondence"},
